@@ -412,8 +412,17 @@ class Parser:
     ) -> Expression:
         tok = stream.next_token()
         precedence = self.PRECEDENCES.get(tok.type_, self.PRECEDENCE_LOWEST)
-        right = self.parse_filter_expression(stream, precedence)
         operator = self.BINARY_OPERATORS[tok.type_]
+
+        if (
+            operator in self.COMPARISON_OPERATORS
+            and stream.current.type_ == TokenType.LPAREN
+        ):
+            raise JSONPathSyntaxError(
+                "a parenthesized expression is not comparable", token=stream.current
+            )
+
+        right = self.parse_filter_expression(stream, precedence)
 
         if operator in self.COMPARISON_OPERATORS:
             self._raise_for_non_comparable_function(left, tok)
@@ -449,6 +458,12 @@ class Parser:
             expr = self.parse_infix_expression(stream, expr)
 
         stream.expect(TokenType.RPAREN)
+
+        if self.BINARY_OPERATORS.get(stream.peek.type_) in self.COMPARISON_OPERATORS:
+            raise JSONPathSyntaxError(
+                "a parenthesized expression is not comparable", token=stream.peek
+            )
+
         return expr
 
     def parse_root_query(self, stream: TokenStream) -> Expression:
